@@ -74,6 +74,26 @@ fn families(thorough: bool) -> Vec<Prog> {
                     out.push(Prog { family: format!("shadow by {form} in {oname}"), stmts, expected: Some(format!("(2, {e1_dump})")), names: with_names(&nm) });
                 }
             }
+            // a body that consists of the declaration alone (nothing the folder could not
+            // simplify away): the outer name still means the outer value afterwards
+            for (form, decl) in [
+                ("declaration", format!("{n} := \"inner\"")),
+                ("destructuring", format!("({n}, zz) := (\"inner\", 3)")),
+                ("function declaration", format!("{n} := () -> int {{ return 2 }}")),
+            ] {
+                let mut stmts = pre(vec![format!("{n} := id(1)")]);
+                stmts.push(otext.replace("BODY", &decl));
+                stmts.push(format!("({n}, 0)"));
+                let mut nm: Vec<&str> = vec![n];
+                nm.extend(onames.iter());
+                out.push(Prog { family: format!("lone {form} in {oname}"), stmts: stmts.clone(), expected: Some("(1, 0)".into()), names: with_names(&nm) });
+                // the same inside a function, the outer name being a parameter
+                let inner: Vec<String> = stmts[PRELUDE.len() + 1..stmts.len() - 1].to_vec();
+                if !inner.iter().any(|t| t.contains("mm :=") || t.contains("sf :=")) {
+                    let fstmts = pre(vec![format!("wf := ({n}: int) -> any {{ {}; return ({n}, 0) }}", inner.join("; ")), "wf(1)".into()]);
+                    out.push(Prog { family: format!("lone {form} in {oname} inside a function"), stmts: fstmts, expected: Some("(1, 0)".into()), names: with_names(&["wf"]) });
+                }
+            }
             // declared inside, used after: must be rejected
             let mut stmts = pre(vec![]);
             stmts.push(otext.replace("BODY", &format!("{n} := 2")));
@@ -145,9 +165,9 @@ fn families(thorough: bool) -> Vec<Prog> {
         });
         out.push(Prog {
             family: "named closure in a loop body".into(),
-            stmts: pre(vec!["acc := mut 0".into(), format!("for i in [1, 2, 3]~ {{ {n} := () -> int {{ return i }}; acc += {n}() }}"), "*acc".into()]),
+            stmts: pre(vec!["total := mut 0".into(), format!("for ix in [1, 2, 3]~ {{ {n} := () -> int {{ return ix }}; total += {n}() }}"), "*total".into()]),
             expected: Some("6".into()),
-            names: with_names(&["acc"]),
+            names: with_names(&["total"]),
         });
         out.push(Prog {
             family: "named helper in a function called twice".into(),
@@ -202,6 +222,38 @@ fn families(thorough: bool) -> Vec<Prog> {
                 ]);
                 out.push(Prog { family: format!("{fam} in {rname} body of a function"), stmts, expected: Some("([1, 10, 1, 20, 1, 30], 1)".into()), names: with_names(&["f"]) });
             }
+        }
+    }
+    // ---- 2c. a closure captured the outer value of a name; an inner binder of the same name inside
+    //          its body (every binder form) ends with its scope, later uses mean the captured value
+    let binders: [(&str, &str); 9] = [
+        ("match type arm", "r := match 5 { NAME: int => NAME, => 0, }"),
+        ("match type arm, not last", "r := match 5 { NAME: string => 0, NAME: int => NAME, => 0, }"),
+        ("if-set", "r := if NAME: int = 5 { NAME } else { 0 }"),
+        ("while-set", "r := mut 0; while NAME: int = 5 { r = NAME; break }"),
+        ("for", "r := mut 0; for NAME in [5]~ { r = NAME }"),
+        ("block declaration", "r := { NAME := 5; NAME }"),
+        ("block destructuring", "r := { (NAME, zz) := (5, 6); NAME }"),
+        ("nested parameter", "r := ((NAME: int) -> int { return NAME })(5)"),
+        ("nested function declaration", "r := { NAME := () -> int { return 5 }; NAME() }"),
+    ];
+    for (bname, btext) in binders {
+        for n in &names {
+            let b = btext.replace("NAME", n);
+            // created by a factory: the captured name is the factory's parameter
+            out.push(Prog {
+                family: format!("capture survives inner binder: {bname}"),
+                stmts: pre(vec![format!("mk := ({n}: int) -> () -> any {{ return () -> any {{ {b}; return (0, {n}) }} }}"), "g := mk(40)".into(), "g()".into()]),
+                expected: Some("(0, 40)".into()),
+                names: with_names(&["mk", "g"]),
+            });
+            // created at top level: the captured name is a run-time top-level value
+            out.push(Prog {
+                family: format!("capture survives inner binder at top level: {bname}"),
+                stmts: pre(vec![format!("{n} := id(40)"), format!("g := () -> any {{ {b}; return (0, {n}) }}"), format!("{n} := \"later\""), "g()".into()]),
+                expected: Some("(0, 40)".into()),
+                names: with_names(&[n, "g"]),
+            });
         }
     }
     // ---- 3. recursion by declared name from every call path
